@@ -56,6 +56,10 @@ pub trait World: Clone + Send + Sync {
     fn sig_label(&self, a: &Self::Act) -> String {
         Self::label(a)
     }
+    /// edges of this class are recorded when the explorer is asked to (termination analysis)
+    fn is_delivery(_a: &Self::Act) -> bool {
+        false
+    }
     /// invariant evaluated on every newly discovered state (after `step`)
     fn check_state(&self, _out: &mut StepOut) {}
 }
@@ -115,6 +119,9 @@ pub struct Explorer<'a, W: World> {
     /// thorough-tier merge audit: one-step bisimulation check on the first merge per key
     pub merge_audit: bool,
     pub audit_count: u64,
+    /// record (from, to) state ids of every `is_delivery` transition
+    pub record_delivery_edges: bool,
+    pub delivery_edges: Vec<(u32, u32)>,
 }
 
 impl<'a, W: World> Explorer<'a, W> {
@@ -128,6 +135,8 @@ impl<'a, W: World> Explorer<'a, W> {
             kept_hist: vec![],
             merge_audit: false,
             audit_count: 0,
+            record_delivery_edges: false,
+            delivery_edges: vec![],
         }
     }
 
@@ -235,6 +244,10 @@ impl<'a, W: World> Explorer<'a, W> {
                     continue;
                 }
                 let Some(w) = c.world else { continue };
+                if self.record_delivery_edges && W::is_delivery(&c.act) {
+                    let target = seen.get(&c.key).copied().unwrap_or(nodes.len() as u32);
+                    self.delivery_edges.push((c.parent, target));
+                }
                 match seen.get(&c.key) {
                     Some(&existing) => {
                         if self.merge_audit && self.audit_count < audit_cap && audited.insert(c.key) {
